@@ -400,7 +400,7 @@ func resultDiff(sp *spec.Spec, t *spec.Type, l *Layout, expect, got any) *Diff {
 		}
 		got = g2
 	}
-	d := Equal(sp, t, nil, expect, got, "result")
+	d := EqualBody(sp, t, nil, expect, got, "result", bodyAttrOf(l))
 	if d != nil && !l.Whole {
 		// an attribute the response does not carry is unset on the client; its default (if
 		// any) may be injected: both are accepted
